@@ -255,7 +255,10 @@ mutual
     | .tdelta _ => true
     | .cdelta _ => true
     | .fdt _ => true
+    | .ftd _ => true
     | .nat => true
+    | .index _ => true
+    | .sub _ xs => EVal.keysOkList xs
     | .list xs => EVal.keysOkList xs
     | .tuple xs => EVal.keysOkList xs
     | .dict _ kvs => decide (kvs.map (·.1)).Nodup && EVal.keysOkKVs kvs
